@@ -42,6 +42,13 @@ func (f *c18Filter) cookieName() string {
 var c18Fronts int64 // every world gets a front host of its own: the service caches discovery documents per URL for the life of the process
 
 type c18World struct {
+	// proxies: every filter reaches its provider through a forward proxy of its own; dialed records the addresses
+	// connected to while a check runs
+	proxies      bool
+	dialMu       sync.Mutex
+	dialed       []string
+	foreignProxy string
+
 	fs     []*c18Filter
 	filter *server.ExtAuthZFilter
 	svc    *sim.Service
@@ -64,6 +71,17 @@ func newC18World(c *sim.Case, n int, storeMode string, timeouts [][2]int, discov
 	full := &configv1.Config{}
 	mr, _ := sim.Redis()
 	byName := map[string]*sim.IdP{}
+	w.proxies = !binary && sim.Weighted(c, "forward-proxies", 3, 1) == 1
+	if w.proxies {
+		sim.SetDialHook(func(addr string) error {
+			w.dialMu.Lock()
+			w.dialed = append(w.dialed, addr)
+			w.dialMu.Unlock()
+			return nil
+		})
+		w.stops = append(w.stops, func() { sim.SetDialHook(nil) })
+		c.Class("filters:own-forward-proxies")
+	}
 	sameNames := sim.Weighted(c, "chain-names-equal", 3, 1) == 1
 	if sameNames {
 		c.Class("chains:equal-names")
@@ -107,6 +125,9 @@ func newC18World(c *sim.Case, n int, storeMode string, timeouts [][2]int, discov
 			AccessToken:            &oidcv1.TokenConfig{Header: "x-access-token"},
 			Logout:                 &oidcv1.LogoutConfig{Path: "/logout-" + f.name, RedirectUri: f.idp.EndSessionURL()},
 			AbsoluteSessionTimeout: uint32(timeouts[i][0]), IdleSessionTimeout: uint32(timeouts[i][1]),
+		}
+		if w.proxies {
+			f.cfg.ProxyUri = "http://proxy-" + f.name + ".test:3128"
 		}
 		if disc {
 			byName[f.name] = f.idp
@@ -180,6 +201,9 @@ func (w *c18World) check(f *c18Filter, path, cookie string) *sim.Resp {
 		return w.svc.Check(req)
 	}
 	r := &sim.Resp{Req: req}
+	w.dialMu.Lock()
+	w.dialed = nil
+	w.dialMu.Unlock()
 	func() {
 		defer func() {
 			if x := recover(); x != nil {
@@ -190,6 +214,16 @@ func (w *c18World) check(f *c18Filter, path, cookie string) *sim.Resp {
 		resp, r.Err = w.filter.Check(context.Background(), req.Envoy())
 		sim.ParseResp(r, resp)
 	}()
+	if w.proxies {
+		// whatever this check sent to a provider went out through the proxy of the filter that judged it
+		w.dialMu.Lock()
+		for _, addr := range w.dialed {
+			if strings.HasPrefix(addr, "proxy-") && addr != "proxy-"+f.name+".test:3128" {
+				w.foreignProxy = fmt.Sprintf("a check of filter %s connected to %s", f.name, addr)
+			}
+		}
+		w.dialMu.Unlock()
+	}
 	return r
 }
 
@@ -400,6 +434,9 @@ func c18Prop(c *sim.Case) {
 			judge("B's session id under A's name sent to A", func() *sim.Resp { B, A = A, B; return w.check(B, "/app", B.cookieName()+"="+sidB) }(), sidB)
 			B, A = A, B
 		}
+	}
+	if w.foreignProxy != "" {
+		c.Violation("traffic-through-foreign-proxy", "%s: a filter's provider traffic (codes, client credentials, tokens) must use its own proxy_uri", w.foreignProxy)
 	}
 	if nt {
 		c.NonTrivial()
